@@ -24,6 +24,15 @@
 //!     table-gone  `SELECT * FROM tbl` must fail
 //! When the last letter is `@reopen` the layer is prefixed `after-reopen.`.
 //!
+//! How the session ends is a dimension of the reopen oracle: `@reopen` drops the handle (Drop does the
+//! clean shutdown), `@close-reopen` calls the explicit `close()` API first (Drop of a closed handle does
+//! nothing more), `@checkpoint-reopen` calls `checkpoint()` and then drops.  Whatever the last
+//! catalog-changing statement of the session was, all three must show the same state after
+//! `Database::open` (layer prefixes `after-close-reopen.` / `after-checkpoint-reopen.`).  In the quick
+//! tier the two explicit endings are tried only as the last letter of a history (that is: after every
+//! history of length depth-1, hence after every DDL kind as last statement); in the thorough tier they
+//! are ordinary letters.
+//!
 //! Statements whose treatment differs between SQL dialects are NOT judged (skipped, counted as
 //! `unspecified:*`): DROP COLUMN of a key / indexed / only column (model: `Dependent`), plain
 //! `DROP SCHEMA s` of a non-empty schema (RESTRICT vs. MySQL semantics; the alphabet has
@@ -83,6 +92,8 @@ enum Op {
     UPA,
     UPK,
     RO,
+    RC,
+    RK,
     CS,
     DS,
     DSC,
@@ -92,7 +103,7 @@ enum Op {
     TRS,
 }
 use Op::*;
-const ALL_OPS: [Op; 32] = [CT1, CT2, DT, CU, IU, DU, CI, DI, TR, AZ, AZD, AYD, AZN, DCA, DCB, DCC, DCZ, RN, RNX, I1, I2, IL, UPA, UPK, RO, CS, DS, DSC, CST, IST, DST, TRS];
+const ALL_OPS: [Op; 34] = [CT1, CT2, DT, CU, IU, DU, CI, DI, TR, AZ, AZD, AYD, AZN, DCA, DCB, DCC, DCZ, RN, RNX, I1, I2, IL, UPA, UPK, RO, RC, RK, CS, DS, DSC, CST, IST, DST, TRS];
 impl Op {
     fn name(self) -> String {
         format!("{self:?}")
@@ -123,7 +134,7 @@ impl Op {
             DSC => "drop-schema-cascade",
             CST => "create-table-in-schema",
             DST => "drop-table-in-schema",
-            I1 | I2 | IL | UPA | UPK | RO | IU | IST => return None,
+            I1 | I2 | IL | UPA | UPK | RO | RC | RK | IU | IST => return None,
         })
     }
     fn dml_kind(self) -> &'static str {
@@ -135,8 +146,22 @@ impl Op {
             IU => "insert-other",
             IST => "insert-in-schema",
             RO => "reopen",
+            RC => "close-reopen",
+            RK => "checkpoint-reopen",
             _ => "ddl",
         }
+    }
+    /// how the session ends before `Database::open` (None for every other letter)
+    fn ending(self) -> Option<End> {
+        match self {
+            RO => Some(End::Drop),
+            RC => Some(End::Close),
+            RK => Some(End::Checkpoint),
+            _ => None,
+        }
+    }
+    fn is_reopen(self) -> bool {
+        self.ending().is_some()
     }
     fn is_insert(self) -> bool {
         matches!(self, I1 | I2 | IL | IU | IST)
@@ -154,11 +179,30 @@ struct Model {
 const TABLES: [&str; 3] = ["t", "u", "s.t"];
 const COLNAMES: [&str; 6] = ["a", "b", "c", "e", "y", "z"];
 
+/// The three ways a session can end before the directory is opened again: the handle is dropped
+/// (Drop does the clean shutdown), `close()` is called and the handle dropped afterwards, or
+/// `checkpoint()` is called and the handle dropped afterwards.
+#[derive(Clone, Copy, PartialEq, Eq, Debug)]
+enum End {
+    Drop,
+    Close,
+    Checkpoint,
+}
+impl End {
+    fn layer_prefix(self) -> &'static str {
+        match self {
+            End::Drop => "after-reopen.",
+            End::Close => "after-close-reopen.",
+            End::Checkpoint => "after-checkpoint-reopen.",
+        }
+    }
+}
+
 enum Act {
     Rel(Stmt),
     CreateSchema(String),
     DropSchema { name: String, cascade: bool },
-    Reopen,
+    Reopen(End),
 }
 struct Built {
     sql: String,
@@ -253,7 +297,9 @@ fn build(op: Op, m: &Model) -> Result<Built, &'static str> {
             let (c1, c2) = (&tdef.columns[0], &tdef.columns[1]);
             rel(Stmt::Update(Update::new("t", vec![(c2.name.as_str(), ex::lit(upd_val(c2, 77)))], Some(ex::eq(ex::col(&c1.name), ex::lit(val_for(c1, 1)))))))
         }
-        RO => Ok(Built { sql: "@reopen".into(), act: Act::Reopen }),
+        RO => Ok(Built { sql: "@reopen".into(), act: Act::Reopen(End::Drop) }),
+        RC => Ok(Built { sql: "@close-reopen".into(), act: Act::Reopen(End::Close) }),
+        RK => Ok(Built { sql: "@checkpoint-reopen".into(), act: Act::Reopen(End::Checkpoint) }),
         CS => Ok(Built { sql: "CREATE SCHEMA s".into(), act: Act::CreateSchema("s".into()) }),
         DS => Ok(Built { sql: "DROP SCHEMA s".into(), act: Act::DropSchema { name: "s".into(), cascade: false } }),
         DSC => Ok(Built { sql: "DROP SCHEMA s CASCADE".into(), act: Act::DropSchema { name: "s".into(), cascade: true } }),
@@ -274,7 +320,7 @@ fn stmt_table(s: &Stmt) -> Option<&str> {
 
 fn m_apply(m: &mut Model, act: &Act) -> MStep {
     match act {
-        Act::Reopen => MStep::Ok,
+        Act::Reopen(_) => MStep::Ok,
         Act::CreateSchema(n) => {
             if m.schemas.contains(n) {
                 MStep::Err("schemaexists".into())
@@ -318,11 +364,35 @@ fn m_apply(m: &mut Model, act: &Act) -> MStep {
 
 fn r_apply(t: &mut TestDb, b: &Built) -> Res {
     match &b.act {
-        Act::Reopen => match t.reopen() {
-            Ok(()) => Res::Done("reopen".into()),
-            Err(e) if e.starts_with("PANIC") => Res::Panic(e),
-            Err(e) => Res::Err(e),
-        },
+        Act::Reopen(end) => {
+            let r = match end {
+                End::Drop => t.reopen(),
+                End::Close => t.close_reopen(),
+                End::Checkpoint => {
+                    let cp = match &t.db {
+                        Some(db) => match vcore::catch(|| db.checkpoint().map(|_| ()).map_err(|e| format!("{e:#}"))) {
+                            Ok(Ok(())) => Ok(()),
+                            Ok(Err(e)) => Err(format!("checkpoint: {e}")),
+                            Err(p) => Err(format!("PANIC in checkpoint: {p}")),
+                        },
+                        None => Ok(()),
+                    };
+                    match cp {
+                        Ok(()) => t.reopen(),
+                        Err(e) => {
+                            // the handle stays usable for nothing: end the history here
+                            t.db = None;
+                            Err(e)
+                        }
+                    }
+                }
+            };
+            match r {
+                Ok(()) => Res::Done("reopen".into()),
+                Err(e) if e.starts_with("PANIC") => Res::Panic(e),
+                Err(e) => Res::Err(e),
+            }
+        }
         _ => t.exec(&b.sql),
     }
 }
@@ -641,7 +711,7 @@ fn run_history(scratch: &Path, ops: &[Op], all: bool, plant: Plant) -> RunOut {
             match op {
                 RN => flags.renamed = true,
                 DCB => flags.dropped_b = true,
-                RO => flags.reopened = true,
+                RO | RC | RK => flags.reopened = true,
                 _ => {}
             }
         }
@@ -659,7 +729,7 @@ fn run_history(scratch: &Path, ops: &[Op], all: bool, plant: Plant) -> RunOut {
             }
         }
         if all || last {
-            let layer = if op == RO { "open" } else { "error-class" };
+            let layer = if op.is_reopen() { "open" } else { "error-class" };
             let v = match (&ms, &r) {
                 (_, Res::Panic(p)) => Some(Viol::new(layer, &format!("{}>panic", if ms == MStep::Ok { "ok" } else { "err" }), format!("{} returns {}", b.sql, if ms == MStep::Ok { "Ok" } else { "Err" }), format!("PANIC({p})"))),
                 (MStep::Ok, Res::Err(e)) => Some(Viol::new(layer, "ok>err", format!("{} succeeds (the model accepts it)", b.sql), format!("Err({e})"))),
@@ -679,8 +749,8 @@ fn run_history(scratch: &Path, ops: &[Op], all: bool, plant: Plant) -> RunOut {
         m = m2;
         if all || last {
             if let Some(mut v) = check_state(t.db(), &m, &flags, plant, &mut out.stats) {
-                if op == RO {
-                    v.layer = format!("after-reopen.{}", v.layer);
+                if let Some(end) = op.ending() {
+                    v.layer = format!("{}{}", end.layer_prefix(), v.layer);
                 }
                 out.viol = Some((k, v));
                 return out;
@@ -764,27 +834,31 @@ struct Pass {
     alphabet: Vec<Op>,
     depth: usize,
     clean: bool,
+    /// the session endings `close()+open` / `checkpoint()+open` (RC, RK) are tried only as the LAST letter of a
+    /// history (after every history of length depth-1, so after every DDL kind as last statement); otherwise
+    /// they are ordinary letters like `@reopen` (thorough tier)
+    endings_last_only: bool,
 }
 const SPLIT: usize = 2;
 
 fn table_alphabet() -> Vec<Op> {
-    vec![I1, I2, IL, UPA, UPK, RO, AZ, AZD, AYD, AZN, DCA, DCB, DCC, DCZ, RN, RNX, TR, CI, DI, DT, CT1, CT2, CU, IU, DU]
+    vec![I1, I2, IL, UPA, UPK, RO, RC, RK, AZ, AZD, AYD, AZN, DCA, DCB, DCC, DCZ, RN, RNX, TR, CI, DI, DT, CT1, CT2, CU, IU, DU]
 }
 fn schema_alphabet() -> Vec<Op> {
-    vec![CS, CST, IST, TRS, DST, DS, DSC, CT1, I1, TR, DT, RO]
+    vec![CS, CST, IST, TRS, DST, DS, DSC, CT1, I1, TR, DT, RO, RC, RK]
 }
 fn passes(ctx: &Ctx) -> Vec<Pass> {
     let q = ctx.quick();
     let d = |quick: usize, thorough: usize| if q { quick } else { thorough };
     let mut v = vec![
-        Pass { name: "full:empty", setup: vec![], alphabet: table_alphabet(), depth: d(3, 4), clean: false },
-        Pass { name: "full:pk2", setup: vec![CT1, I1, I2], alphabet: table_alphabet(), depth: d(2, 3), clean: false },
-        Pass { name: "full:nopk2", setup: vec![CT2, I1, I2], alphabet: table_alphabet(), depth: d(2, 3), clean: false },
-        Pass { name: "full:schema", setup: vec![], alphabet: schema_alphabet(), depth: d(3, 5), clean: false },
-        Pass { name: "clean:empty", setup: vec![], alphabet: table_alphabet(), depth: d(2, 4), clean: true },
-        Pass { name: "clean:pk2", setup: vec![CT1, I1, I2], alphabet: table_alphabet(), depth: d(3, 4), clean: true },
-        Pass { name: "clean:nopk2", setup: vec![CT2, I1, I2], alphabet: table_alphabet(), depth: d(3, 4), clean: true },
-        Pass { name: "clean:schema", setup: vec![], alphabet: schema_alphabet(), depth: d(4, 6), clean: true },
+        Pass { name: "full:empty", setup: vec![], alphabet: table_alphabet(), depth: d(3, 4), clean: false, endings_last_only: q },
+        Pass { name: "full:pk2", setup: vec![CT1, I1, I2], alphabet: table_alphabet(), depth: d(2, 3), clean: false, endings_last_only: q },
+        Pass { name: "full:nopk2", setup: vec![CT2, I1, I2], alphabet: table_alphabet(), depth: d(2, 3), clean: false, endings_last_only: q },
+        Pass { name: "full:schema", setup: vec![], alphabet: schema_alphabet(), depth: d(3, 5), clean: false, endings_last_only: q },
+        Pass { name: "clean:empty", setup: vec![], alphabet: table_alphabet(), depth: d(2, 4), clean: true, endings_last_only: q },
+        Pass { name: "clean:pk2", setup: vec![CT1, I1, I2], alphabet: table_alphabet(), depth: d(3, 4), clean: true, endings_last_only: q },
+        Pass { name: "clean:nopk2", setup: vec![CT2, I1, I2], alphabet: table_alphabet(), depth: d(3, 4), clean: true, endings_last_only: q },
+        Pass { name: "clean:schema", setup: vec![], alphabet: schema_alphabet(), depth: d(4, 6), clean: true, endings_last_only: q },
     ];
     if let Some(only) = ctx.opt("pass") {
         v.retain(|p| p.name == only || p.name.starts_with(only));
@@ -799,9 +873,9 @@ fn passes(ctx: &Ctx) -> Vec<Pass> {
 
 /// letters that make no sense in their position (never judged, never counted)
 fn structurally_allowed(hist: &[Op], op: Op) -> bool {
-    if op == RO {
+    if op.is_reopen() {
         // reopen of an empty database / two reopens in a row add nothing
-        return !hist.is_empty() && *hist.last().unwrap() != RO;
+        return !hist.is_empty() && !hist.last().unwrap().is_reopen();
     }
     true
 }
@@ -845,7 +919,7 @@ fn avoid(hist: &[Op], m: &Model, op: Op) -> Option<&'static str> {
         CST if t.is_some() && m.schemas.contains("s") && !m.st.tables.contains_key("s.t") => return Some("KF-C21-12 s.t next to a root table t"),
         CT1 | CT2 if t.is_none() && m.st.tables.contains_key("s.t") => return Some("KF-C21-12 s.t next to a root table t"),
         // KF-C21-05: any CREATE SCHEMA makes the persisted catalog unreadable
-        RO if !m.schemas.is_empty() => return Some("KF-C21-05 reopen with a user schema"),
+        RO | RC | RK if !m.schemas.is_empty() => return Some("KF-C21-05 reopen with a user schema"),
         _ => {}
     }
     // KF-C21-10 (= KF-C10-05): UPDATE of an indexed column leaves the index stale
@@ -860,7 +934,7 @@ fn avoid(hist: &[Op], m: &Model, op: Op) -> Option<&'static str> {
     // KF-C21-06 (= KF-C04-01): the row-id counter restarts at 1 on open: an INSERT into a table that
     // held rows at the last reopen collides with their row ids
     if op.is_insert() {
-        if let Some(ro) = hist.iter().rposition(|o| *o == RO) {
+        if let Some(ro) = hist.iter().rposition(|o| o.is_reopen()) {
             let mut mm = Model::default();
             for &o in &hist[..ro] {
                 if let Ok(b) = build(o, &mm) {
@@ -903,6 +977,9 @@ impl<'a> Engine<'a> {
                 continue;
             }
             let leaf = len + 1 == d;
+            if p.endings_last_only && matches!(op, RC | RK) && !leaf {
+                continue;
+            }
             if p.clean {
                 if let Some(why) = avoid(hist, m, op) {
                     if leaf && self.ctx.mine(vcore::util::hash_of(&(p.name, &hist[..], op))) {
@@ -999,8 +1076,12 @@ impl<'a> Engine<'a> {
             if let Some(e) = &o.last_err {
                 rep.count(&format!("err:{}", err_class(e)), 1);
             }
-            if last == RO {
+            if last.is_reopen() {
                 rep.count("reopens", 1);
+                rep.count(&format!("session-end:{}", last.dml_kind()), 1);
+                if let Some(k) = hist[..hist.len() - 1].last().and_then(|o| o.ddl_kind()) {
+                    rep.count(&format!("ddl-last-then-{}:{}", last.dml_kind(), k), 1);
+                }
             }
             if last.is_insert() && o.last.1 == "ok" {
                 rep.count("rows_loaded", 1);
@@ -1008,7 +1089,7 @@ impl<'a> Engine<'a> {
             rep.count("probes", o.stats.probes);
             rep.count("plan:index-lookup", o.stats.index_plans);
             rep.count("plan:pk-lookup", o.stats.pk_plans);
-            if hist.contains(&RO) && hist.iter().any(|o| matches!(o, AZ | AZD | AYD | AZN | DCA | DCB | DCC | DCZ | RN | RNX)) {
+            if hist.iter().any(|o| o.is_reopen()) && hist.iter().any(|o| matches!(o, AZ | AZD | AYD | AZN | DCA | DCB | DCC | DCZ | RN | RNX)) {
                 rep.count("alter+reopen histories", 1);
             }
             rep.sample(|| case_json(p.name, hist));
@@ -1039,12 +1120,12 @@ impl Check for C21 {
         let mut s = Spec::new(
             "C21",
             "model_checking",
-            "a case is one history = setup of the pass + a sequence of letters of the pass alphabet (CREATE TABLE t in two shapes / u, DROP TABLE, CREATE/DROP INDEX, TRUNCATE, ALTER TABLE ADD COLUMN z INT | z INT DEFAULT 5 | y TEXT DEFAULT 'd' | z INT DEFAULT -1, DROP COLUMN first/middle/last/added, RENAME COLUMN b TO e | c TO b, INSERT of keys 1,2 without and of key 3 with a column list, UPDATE all / by key, @reopen; schema pass: CREATE/DROP SCHEMA s [CASCADE], CREATE/DROP/TRUNCATE/INSERT s.t next to a root table t). EVERY sequence up to the pass depth is enumerated on the relational model (extended only through letters the model accepts and whose history was clean on the real database), shortest first over all passes, and executed on a fresh real Database; the oracle (statement Ok/Err, rows, column names, COUNT(*), pk and index lookups, name resolution of every column name, absent tables) is evaluated after the last letter. Distinct = distinct (pass, history); non-trivial = at least two DDL letters and at least one DML letter or reopen.",
+            "a case is one history = setup of the pass + a sequence of letters of the pass alphabet (CREATE TABLE t in two shapes / u, DROP TABLE, CREATE/DROP INDEX, TRUNCATE, ALTER TABLE ADD COLUMN z INT | z INT DEFAULT 5 | y TEXT DEFAULT 'd' | z INT DEFAULT -1, DROP COLUMN first/middle/last/added, RENAME COLUMN b TO e | c TO b, INSERT of keys 1,2 without and of key 3 with a column list, UPDATE all / by key, the three session endings @reopen (drop the handle) | @close-reopen (explicit close()) | @checkpoint-reopen (checkpoint(), drop) each followed by Database::open - the latter two in the quick tier only as the last letter, i.e. after every history of depth-1 and so after every DDL kind as the last statement of the session; schema pass: CREATE/DROP SCHEMA s [CASCADE], CREATE/DROP/TRUNCATE/INSERT s.t next to a root table t). EVERY sequence up to the pass depth is enumerated on the relational model (extended only through letters the model accepts and whose history was clean on the real database), shortest first over all passes, and executed on a fresh real Database; the oracle (statement Ok/Err, rows, column names, COUNT(*), pk and index lookups, name resolution of every column name, absent tables) is evaluated after the last letter. Distinct = distinct (pass, history); non-trivial = at least two DDL letters and at least one DML letter or reopen.",
         );
         s.assumptions = &[
             "reference semantics = refmodel::sql::rel (cross-checked against SQLite) + a set of schema names; DROP SCHEMA CASCADE removes the schema's tables",
             "dialect-dependent statements are not judged: DROP COLUMN of a key/indexed/only column, DROP SCHEMA (no CASCADE) of a non-empty schema, UPDATE of a key column",
-            "reopen = drop the only handle (clean close through Drop) and Database::open of the same directory",
+            "a session ends in one of three ways before Database::open of the same directory: @reopen = drop the only handle (clean close through Drop), @close-reopen = Database::close() then drop, @checkpoint-reopen = Database::checkpoint() then drop; all three must leave the same durable state",
         ];
         s.cap_quick_s = 100;
         s.cap_thorough_s = 1500;
@@ -1064,7 +1145,7 @@ impl Check for C21 {
         }
         rep.bound("tables", json!(TABLES));
         rep.bound("column-names probed", json!(COLNAMES));
-        for c in ["reopens", "rows_loaded", "plan:index-lookup", "plan:pk-lookup", "alter+reopen histories", "model:ok", "err:already-exists", "err:not-found"] {
+        for c in ["session-end:reopen", "session-end:close-reopen", "session-end:checkpoint-reopen", "ddl-last-then-close-reopen:rename-col", "ddl-last-then-close-reopen:add-col", "ddl-last-then-close-reopen:create-index", "ddl-last-then-close-reopen:drop-col-last", "reopens", "rows_loaded", "plan:index-lookup", "plan:pk-lookup", "alter+reopen histories", "model:ok", "err:already-exists", "err:not-found"] {
             rep.expect_nonzero(c);
         }
         let mut eng = Engine { ctx, plant: Plant::from_ctx(ctx), divergent: vec![BTreeSet::new(); ps.len()], verified: vec![BTreeSet::new(); ps.len()], stop: false, dry: ctx.opt("dry").is_some() };
